@@ -71,6 +71,13 @@ func cmdJob(args []string) {
 		res = codec.Run(*uni, *tier, *deadline)
 	case *prop == "C19":
 		res = runC19(*uni, *tier)
+	case *prop == "C12":
+		sp := hist.FindProduct(*uni)
+		if sp == nil {
+			fmt.Fprintln(os.Stderr, "no product", *uni)
+			os.Exit(2)
+		}
+		res = hist.ExploreProduct(sp, *tier, *deadline, 400000)
 	default:
 		u, err := hist.FindUniverse(*prop, *tier, *uni)
 		if err != nil {
@@ -114,6 +121,24 @@ func cmdReplay(args []string) {
 	if err := json.Unmarshal(b, &v); err != nil {
 		fmt.Fprintln(os.Stderr, err)
 		os.Exit(2)
+	}
+	if v.Property == "C12" {
+		sp := hist.FindProduct(v.Universe)
+		if sp == nil {
+			fmt.Fprintln(os.Stderr, "no product", v.Universe)
+			os.Exit(2)
+		}
+		v2, err := hist.EvalProduct(sp, v.Product, nil)
+		if err != nil {
+			fmt.Fprintln(os.Stderr, "replay error:", err)
+			os.Exit(2)
+		}
+		if v2 == nil {
+			fmt.Println("NOT REPRODUCED: every tree behaves as it would alone on this interleaving now")
+			os.Exit(0)
+		}
+		fmt.Printf("REPRODUCED C12: %s\n  expected: %s\n  observed: %s\n", v2.What, v2.Expected, v2.Observed)
+		os.Exit(1)
 	}
 	if v.Property == "C19" {
 		r := runC19(v.Universe, v.Tier)
